@@ -1,6 +1,8 @@
 package main
 
-import "os"
+import (
+	"sync"
+)
 
 // Scaled terms: seconds * 1e9 (time.Duration(x) * time.Second, differences of
 // whole-second instants). Bit-blasting 64-bit multiplications by 1e9 under
@@ -114,8 +116,116 @@ func (f *TermFactory) cmpScaled(op string, a, b *Term) *Term {
 	default:
 		return nil
 	}
-	if os.Getenv("KSE_SCALED_EXPERIMENT") != "" {
+	if guard.op == "true" {
+		return simple
+	}
+	if f.scaledRegister(guard) {
+		// the machine proves the guard under the path condition before the
+		// solver sees any term built from it (flushScaled)
 		return simple
 	}
 	return f.Or(f.And(guard, simple), f.And(f.Not(guard), orig))
+}
+
+// eqScaled: x*k == c  <=>  k | c  and  x == c/k ;  x*k == y*k  <=>  x == y
+// (operands small, same obligation as for the comparisons).
+func (f *TermFactory) eqScaled(a, b *Term) *Term {
+	if a.w != 64 {
+		return nil
+	}
+	x, k1, ok1 := scaledOf(a)
+	y, k2, ok2 := scaledOf(b)
+	var guard, simple *Term
+	switch {
+	case ok1 && ok2 && k1 == k2:
+		guard = f.And(f.smallFor(x, k1), f.smallFor(y, k1))
+		simple = f.Eq(x, y)
+	case ok1 && b.isConst(), ok2 && a.isConst():
+		v, k, c := x, k1, b
+		if !ok1 || !b.isConst() {
+			v, k, c = y, k2, a
+		}
+		guard = f.smallFor(v, k)
+		ci, ki := int64(c.val), int64(k)
+		if ci%ki != 0 {
+			simple = f.Bool(false)
+		} else {
+			simple = f.Eq(v, f.BV(uint64(ci/ki), 64))
+		}
+	default:
+		return nil
+	}
+	if guard.op == "true" || f.scaledRegister(guard) {
+		return simple
+	}
+	return nil
+}
+
+// Proof obligations for the multiplication-free form: a comparison rewritten
+// to its unscaled operands is only valid when the guard (operands small) holds.
+// The factory queues the guard; the machine's solver pre-hook proves every
+// queued guard from the current path condition before the next assertion or
+// query, and ends the path as unsupported otherwise. So the solver never
+// reasons about a rewritten comparison whose guard is not implied.
+
+var (
+	scaledMu      sync.Mutex
+	scaledPending = map[*TermFactory][]*Term{}
+	scaledActive  = map[*TermFactory]bool{}
+)
+
+func (f *TermFactory) scaledRegister(guard *Term) bool {
+	scaledMu.Lock()
+	defer scaledMu.Unlock()
+	if !scaledActive[f] {
+		return false
+	}
+	scaledPending[f] = append(scaledPending[f], guard)
+	return true
+}
+
+func (m *Machine) installScaledHook() {
+	scaledMu.Lock()
+	// factories of finished paths are dropped here (one live factory per solver)
+	for f := range scaledActive {
+		if f.owner == m.solver {
+			delete(scaledActive, f)
+			delete(scaledPending, f)
+		}
+	}
+	m.tf.owner = m.solver
+	scaledActive[m.tf] = true
+	scaledMu.Unlock()
+	proved := map[*Term]bool{}
+	busy := false
+	m.solver.preHook = func() {
+		if busy {
+			return
+		}
+		scaledMu.Lock()
+		pend := scaledPending[m.tf]
+		scaledPending[m.tf] = nil
+		scaledMu.Unlock()
+		if len(pend) == 0 {
+			return
+		}
+		busy = true
+		defer func() { busy = false }()
+		for _, g := range pend {
+			if proved[g] {
+				continue
+			}
+			r, _ := m.solver.Check(m.tf.Not(g), false)
+			if r != "unsat" {
+				m.unsupported("a whole-second quantity compared after scaling by 1e9 is not provably within ±2^33 s on this path (add an Assume bounding it)")
+			}
+			proved[g] = true
+		}
+	}
+}
+
+func (s *Solver) runPreHook() {
+	if s.preHook != nil {
+		s.preHook()
+	}
 }
